@@ -126,6 +126,15 @@ def name_scenario(sid, kind, n):
         s.add("RF", 1, h(d + b"/" + name), h(b"="), h(b"#"))
         s.add("GET", 1, "str", h(b"S"), h(b"k"))
         s.meta["path"] = d + b"/" + name
+    elif kind == "layerdir":
+        # an over-long vendor sub-directory (or root prefix) next to a project name: the layer directories are composed in
+        # PATH_MAX arrays; the over-long one cannot exist, the /etc layer is still read whole
+        s.file(b"/etc/p/cfg.conf", b"k=" + b"v" * 100 + b"\n")
+        s.add("RC", 0, h(b"p"), h(b"/" + b"u" * (n - 1)), h(b"cfg"), h(b"conf"), h(b"="), h(b"#"))
+        s.add("GET", 0, "sum", "-", h(b"k"))
+        s.add("NEW", 1, "opt", h(b"ROOT_PREFIX=/" + b"r" * (n - 1)))
+        s.add("RC", 1, h(b"p"), h(b"/usr/etc"), h(b"cfg"), h(b"conf"), h(b"="), h(b"#"))
+        s.add("SLOT", 1)
     elif kind == "options":
         d = b"/" + b"x" * n
         s.add("NEW", 0, "opt", h(b"ROOT_PREFIX=" + d + b";PARSING_DIRS=" + d + b":/b;CONFIG_DIRS=" + b"y" * n))
@@ -153,6 +162,8 @@ def scenarios(tier, rng):
         out.append(name_scenario("wfn_%d" % n, "wfilename", n))
     for n in range(PATH_MAX - 8, PATH_MAX):
         out.append(name_scenario("wp_%d" % n, "wpath", n))
+    for n in list(range(PATH_MAX - 3, PATH_MAX + 4)) + [2 * PATH_MAX, 65536]:
+        out.append(name_scenario("ld_%d" % n, "layerdir", n))
     for n in (100, BUFSIZ, 65536):
         out.append(name_scenario("o_%d" % n, "options", n))
     return out
@@ -206,6 +217,13 @@ def oracle(s, lines):
             return "%s of %d bytes: %r" % (f, n, lines[0])
         if lines[1] != "path " + h(m["path"]):
             return "%s of %d bytes: path %r" % (f, n, lines[1][:80])
+        return None
+    if f == "layerdir":
+        want = ["rc E0 obj", "get E0 " + summ(100, 0x76)]
+        if lines[:2] != want:
+            return "layered read with a vendor sub-directory of %d bytes and a project name: %r, expected %r" % (n, lines[:2], want)
+        if not lines[3].startswith("rc E3") and not lines[3].startswith("rc E0"):
+            return "layered read with a root prefix of %d bytes: %r" % (n, lines[3])
         return None
     if f in ("wfilename", "wpath"):
         if "w E0" not in lines or lines[-2:] != ["rf E0 obj", "get E0 " + h(b"kept")]:
